@@ -78,7 +78,7 @@ CHECKS = {
         "technique": "bounded exhaustive enumeration of print templates on the real print parser against a chunk-expansion model",
     },
     "C08": {
-        "text": "Every ordered group of 1-2 (thorough 3) members from an 11-member alphabet x files of <=3 records x the six run methods (and "
+        "text": "Every ordered group of 1-2 (thorough 3) members from a 12-member alphabet x files of <=3 records x the six run methods (and "
         "if_all_agree): every member's lines, variables incl. private keys, printouts, validity and counters must equal a standalone "
         "CsvPath run; the caller's lines of a breadth-first run must be the per-record union/intersection of the members' decisions.",
         "design": "3 / C08",
